@@ -206,9 +206,11 @@ def run(tier, seed):
               common.param('MAX_BLOCK_SIZE'), common.param('MAX_COINBASE_RANDOM_DATA_SIZE'), common.param('MAX_FUTURE_BLOCK_TIME'), common.param('MAX_SASHIMI'),
               common.param('SUBSIDY_HALVING_INTERVAL'), common.param('INITIAL_SUBSIDY'), common.param('CHAIN_SAMPLE_COUNT'), common.param('CHAIN_SAMPLE_SIZE')]
     cs0 = CoinState.zero()
+    roots = {}         # height h -> id of a stored stand-in parent at height h - 1 (so that a candidate at h sits AT that position)
     heights = sorted(table)
     extra_heights = sorted(set([h + d for h in heights[:5] + heights[-5:] for d in (-1, 1) if h + d > 0 and (h + d) not in table]))
     ops = []
+    parent_ops = []
     expect = []
     tbl = [('sha256d', genesis.header.serialize(), gid)] + [('sha256d', t.serialize(), spec.sha256d(t.serialize())) for t in genesis.transactions]
     for h in heights + extra_heights:
@@ -227,7 +229,21 @@ def run(tier, seed):
                 cid = bytes(ck.rng.getrandbits(8) for _ in range(32))
             cb = chaingen.coinbase(h, 1, b'\x22' * 64, data=b'c18')
             from skepticoin.datatypes import BlockHeader, BlockSummary, PowEvidence
-            summ = BlockSummary(h, b'\x33' * 32, b'\x44' * 32, 1700000000, b'\x00' * 32, ck.rng.getrandbits(32))
+            if h == 0:
+                prev_id = b'\x00' * 32
+            else:
+                if h not in roots:
+                    # a stand-in parent at height h - 1, stored without validation (as blocks loaded from disk are)
+                    pcb = chaingen.coinbase(h - 1, 1, b'\x22' * 64, data=b'par')
+                    psum = BlockSummary(h - 1, b'\x00' * 32, b'\x44' * 32, 1600000000, b'\x00' * 32, h)
+                    pblk = Block(BlockHeader(psum, PowEvidence(b'\x01' * 32, b'\x02' * 32, b'\x03' * 32)), [pcb])
+                    cs0 = cs0.add_block_no_validation(pblk)
+                    roots[h] = pblk
+                    parent_ops.append([0, pblk.serialize()])
+                    tbl.append(('sha256d', pblk.header.serialize(), spec.sha256d(pblk.header.serialize())))
+                    tbl.append(('sha256d', pcb.serialize(), spec.sha256d(pcb.serialize())))
+                prev_id = spec.sha256d(roots[h].header.serialize())
+            summ = BlockSummary(h, prev_id, b'\x44' * 32, 1700000000, b'\x00' * 32, ck.rng.getrandbits(32))
             hdr = BlockHeader(summ, PowEvidence(b'\x01' * 32, b'\x02' * 32, b'\x03' * 32))
             blk = Block(hdr, [cb], hash=cid)
             try:
@@ -252,8 +268,32 @@ def run(tier, seed):
                              {'kind': 'checkpoint', 'height': h, 'id': cid.hex()})
             ops.append([7, blk.serialize(), 0, [[b'sha256d', hdr.serialize(), cid]]])
             expect.append(v)
-    reqs.append(('chain', tbl, [params, [[0, genesis.serialize()]] + ops, 0]))
-    meta.append(('checkpoint-table', expect, {'kind': 'table'}))
+    # a candidate without a stored parent is refused at every height but 0, whatever the table says
+    for h in (1, 499, 500, 163000):
+        cbx = chaingen.coinbase(h, 1, b'\x22' * 64, data=b'orph')
+        for prev_x in (b'\x00' * 32, b'\x33' * 32):
+            sx_ = BlockSummary(h, prev_x, b'\x44' * 32, 1700000000, b'\x00' * 32, 5)
+            hx_ = BlockHeader(sx_, PowEvidence(b'\x01' * 32, b'\x02' * 32, b'\x03' * 32))
+            cidx = unhexlify(table[h]) if h in table else bytes(ck.rng.getrandbits(8) for _ in range(32))
+            bx_ = Block(hx_, [cbx], hash=cidx)
+            try:
+                C.validate_block_in_coinstate(bx_, cs0)
+                vx = [1]
+            except C.ValidateTransactionError:
+                vx = [0, 1]
+            except C.ValidationError:
+                vx = [0, 2]
+            except Exception:
+                vx = [0, 3]
+            ck.case(('parentless', h, prev_x), kind='checkpoint/no-stored-parent/%s' % ('accept' if vx == [1] else 'reject'))
+            if vx == [1]:
+                ck.violation('parentless-block-accepted', 'a block at height %d without a stored parent (previous id %s) passes in-state '
+                             'validation%s' % (h, 'all zero' if prev_x[0] == 0 else 'unknown', ' carrying the checkpointed id' if h in table else ''),
+                             {'kind': 'checkpoint', 'height': h, 'id': cidx.hex(), 'parentless': True})
+            ops.append([7, bx_.serialize(), 0, [[b'sha256d', hx_.serialize(), cidx]]])
+            expect.append(vx)
+    reqs.append(('chain', tbl, [params, [[0, genesis.serialize()]] + parent_ops + ops, 0]))
+    meta.append(('checkpoint-table', expect, {'kind': 'table', 'parents': len(parent_ops)}))
 
     # ---------------- (b2) shipped constants, the recorded real blocks as the chain: a block built on the real head that
     #                  merely DECLARES a height at or below the horizon must not ride the checkpoint shortcut
@@ -351,7 +391,7 @@ def run(tier, seed):
         outs = model.run_batch(reqs)
         for (what, want, rp), o in zip(meta, outs):
             if what == 'checkpoint-table':
-                got = o[0][1:]
+                got = o[0][1 + rp.get('parents', 0):]
                 if got != want:
                     bad = [i for i, (a, b) in enumerate(zip(want, got)) if a != b]
                     ck.disagree('validate_block_in_coinstate vs model on the checkpoint table: %d cases differ' % len(bad), rp)
